@@ -1,25 +1,165 @@
+//! sim: deterministic simulator for inputlayer (single binary: libc seam + lock shims).
+//!
+//!   sim gen  --family <f> --seed <s> --from <i> --n <n> [--param k=v ...]   cases as JSON lines on stdout
+//!   sim exec [--jobs N] [--timeout-s T]                                     cases (JSON lines, stdin) -> outcomes (stdout)
+//!
+//! Every case is executed in a freshly forked child process (DESIGN.md §7).
+
 simsys::interpose!();
 
-fn main() {
-    use std::io::Write;
-    let root = format!("/dev/shm/verif-sim/{}", std::process::id());
-    simsys::enable(simsys::SimConfig { root: root.clone(), seed: 7 });
-    let h = std::thread::spawn(move || {
-        let mut cfg = inputlayer::Config::default();
-        cfg.storage.data_dir = std::path::PathBuf::from(format!("{root}/data"));
-        let eng = inputlayer::StorageEngine::new(cfg).expect("engine");
-        eng.insert_into("default", "r", vec![(1, 2), (3, 4)]).expect("insert");
-        eng.save_all().expect("save");
-        let m: std::collections::HashMap<u32, u32> = (0..5).map(|i| (i, i)).collect();
-        println!("hash order {:?}", m.keys().collect::<Vec<_>>());
-        println!("uuid-ish now {:?}", std::time::SystemTime::now());
-    });
-    h.join().expect("join");
-    for ev in simsys::take_trace() {
-        println!("{:4} {:9} {:6} {}", ev.ord, ev.kind, ev.len, ev.path);
+mod dur;
+mod gen;
+mod model;
+mod runner;
+mod values;
+
+use serde::{Deserialize, Serialize};
+use std::collections::VecDeque;
+use std::io::{BufRead, Write};
+
+#[derive(Clone, Debug, Serialize, Deserialize)]
+#[serde(tag = "scenario", rename_all = "snake_case")]
+pub enum AnyCase {
+    Dur(dur::Case),
+}
+
+static PANIC_MSG: std::sync::Mutex<Option<String>> = std::sync::Mutex::new(None);
+
+fn real_ms() -> u64 {
+    let mut ts = libc::timespec { tv_sec: 0, tv_nsec: 0 };
+    unsafe { simsys::raw::syscall6(simsys::raw::SYS_CLOCK_GETTIME, 1, &mut ts as *mut _ as i64, 0, 0, 0, 0) };
+    ts.tv_sec as u64 * 1000 + ts.tv_nsec as u64 / 1_000_000
+}
+
+fn child_run(case: &AnyCase) -> String {
+    if std::env::var_os("VERIF_NOOP").is_some() {
+        return "{\"status\":\"ok\"}".into();
     }
-    println!("audit: {:?}", simsys::audit());
-    println!("counters: {:?}", simsys::counters());
-    std::io::stdout().flush().ok();
+    let t0 = real_ms();
+    let seed = match case {
+        AnyCase::Dur(c) => c.seed,
+    };
+    simsys::reset_thread_ordinals();
+    simsys::enable(simsys::SimConfig { root: dur::root_dir(), seed });
+    std::panic::set_hook(Box::new(|info| {
+        let msg = format!("{info}");
+        if let Ok(mut g) = PANIC_MSG.lock() {
+            if g.is_none() {
+                *g = Some(msg);
+            }
+        }
+    }));
+    let case2 = case.clone();
+    let h = std::thread::Builder::new()
+        .name("sim-main".into())
+        .stack_size(64 << 20)
+        .spawn(move || match &case2 {
+            AnyCase::Dur(c) => serde_json::to_string(&dur::exec(c)).expect("serialise outcome"),
+        })
+        .expect("spawn scenario thread");
+    let out = match h.join() {
+        Ok(s) => s,
+        Err(_) => {
+            let msg = PANIC_MSG.lock().ok().and_then(|g| g.clone()).unwrap_or_else(|| "panic".into());
+            let o = dur::Outcome {
+                status: "fail".into(),
+                failure: Some(dur::Failure { oracle: "panic".into(), step: -2, detail: msg }),
+                ..Default::default()
+            };
+            serde_json::to_string(&o).expect("serialise")
+        }
+    };
+    let t1 = real_ms();
     simsys::disable_and_cleanup();
+    let t2 = real_ms();
+    if std::env::var_os("VERIF_TIMING").is_some() {
+        return format!("{{\"status\":\"ok\",\"run_ms\":{},\"cleanup_ms\":{}}}", t1 - t0, t2 - t1);
+    }
+    out
+}
+
+fn arg_val(args: &[String], name: &str) -> Option<String> {
+    args.iter().position(|a| a == name).and_then(|i| args.get(i + 1).cloned())
+}
+
+fn main() {
+    let args: Vec<String> = std::env::args().collect();
+    let cmd = args.get(1).map(String::as_str).unwrap_or("");
+    match cmd {
+        "gen" => {
+            let family = arg_val(&args, "--family").expect("--family");
+            let seed: u64 = arg_val(&args, "--seed").and_then(|s| s.parse().ok()).unwrap_or(1);
+            let from: u64 = arg_val(&args, "--from").and_then(|s| s.parse().ok()).unwrap_or(0);
+            let n: u64 = arg_val(&args, "--n").and_then(|s| s.parse().ok()).unwrap_or(1);
+            let p1: u64 = arg_val(&args, "--p1").and_then(|s| s.parse().ok()).unwrap_or(0);
+            let stdout = std::io::stdout();
+            let mut w = std::io::BufWriter::new(stdout.lock());
+            for i in from..from + n {
+                let run_seed = seed.wrapping_mul(1 << 32).wrapping_add(i);
+                let case = match family.as_str() {
+                    "c11" => AnyCase::Dur(gen::c11_random(run_seed)),
+                    "c11enum" => AnyCase::Dur(gen::c11_enum(i, 5, if p1 == 0 { 10000 } else { p1 as usize })),
+                    "c12" => AnyCase::Dur(gen::c12_random(run_seed)),
+                    other => {
+                        eprintln!("unknown family {other}");
+                        std::process::exit(2);
+                    }
+                };
+                writeln!(w, "{}", serde_json::to_string(&case).expect("ser")).expect("write");
+            }
+        }
+        "exec" => {
+            let jobs: usize = arg_val(&args, "--jobs").and_then(|s| s.parse().ok()).unwrap_or(16);
+            let timeout_s: u64 = arg_val(&args, "--timeout-s").and_then(|s| s.parse().ok()).unwrap_or(120);
+            let stdin = std::io::stdin();
+            let mut queue: VecDeque<(usize, AnyCase)> = VecDeque::new();
+            for (i, line) in stdin.lock().lines().enumerate() {
+                let line = line.expect("read stdin");
+                if line.trim().is_empty() {
+                    continue;
+                }
+                match serde_json::from_str::<AnyCase>(&line) {
+                    Ok(c) => queue.push_back((i, c)),
+                    Err(e) => {
+                        eprintln!("bad case on line {i}: {e}");
+                        std::process::exit(2);
+                    }
+                }
+            }
+            let n = queue.len();
+            let mut results: Vec<Option<String>> = vec![None; n.max(queue.back().map_or(0, |x| x.0 + 1))];
+            runner::run_pool(
+                queue,
+                jobs,
+                std::time::Duration::from_secs(timeout_s),
+                &|t: &(usize, AnyCase)| child_run(&t.1),
+                &mut |t, res, _q| {
+                    let s = match (res.json, res.abnormal) {
+                        (Some(j), None) => {
+                            // attach wall time
+                            match serde_json::from_str::<serde_json::Value>(&j) {
+                                Ok(mut v) => {
+                                    v["wall_ms"] = serde_json::json!(res.wall_ms);
+                                    v.to_string()
+                                }
+                                Err(_) => serde_json::json!({"status":"harness","harness_error":format!("unparsable child output: {}", &j[..j.len().min(200)])}).to_string(),
+                            }
+                        }
+                        (_, Some(ab)) => serde_json::json!({"status":"abnormal","harness_error":ab,"wall_ms":res.wall_ms}).to_string(),
+                        (None, None) => serde_json::json!({"status":"harness","harness_error":"child reported nothing","wall_ms":res.wall_ms}).to_string(),
+                    };
+                    results[t.0] = Some(s);
+                },
+            );
+            let stdout = std::io::stdout();
+            let mut w = std::io::BufWriter::new(stdout.lock());
+            for r in results.into_iter().flatten() {
+                writeln!(w, "{r}").expect("write");
+            }
+        }
+        _ => {
+            eprintln!("usage: sim gen|exec ...");
+            std::process::exit(2);
+        }
+    }
 }
